@@ -183,15 +183,18 @@ class Interp:
         self.no_inline = set(no_inline)
         self.max_depth = max_depth
         self.keep_live = set()
+        self.widen = True
         self.events = []
         self.hooks_call = []                 # f(interp, fn, node, name, args, state) -> None | list[(state, val)]
         self.hooks_store = []                # f(interp, fn, node, cell, val, state) -> state|None
         self.hooks_assert = []
+        self.hooks_cmp = []                  # f(interp, fn, node, op, va, vb, st)
         self.site_counter = {}
         self.K = sorted(K) if K is not None else self._default_K()
         self.Kset = set(self.K)
         self.TOP_INT = frozenset(self.K) | {"NEG", "POS"}
         self.stack = []
+        self.callsites = []
         self.stats = {"blocks": 0, "states": 0, "calls_inlined": 0, "calls_modelled": 0, "max_states_block": 0}
         self.name_of_did = {}
         self._locals_cache = {}
@@ -283,8 +286,11 @@ class Interp:
             if (a in ("NEG", "POS") and is_int(b) and b in self.Kset) or (b in ("NEG", "POS") and is_int(a) and a in self.Kset):
                 may = False
             fail = not (single and la == lb)
-            if a == b and isinstance(a, tuple) and a[0] in ("fd", "pid", "mem", "addr") and "many" not in a:
+            if a == b and isinstance(a, tuple) and a[0] in ("fd", "pid", "mem", "addr", "sym") and "many" not in a:
                 fail = False    # one and the same runtime value
+            if a != b and ((isinstance(a, tuple) and a[0] == "sym" and str(a[1]).startswith("distinct:")) or
+                           (isinstance(b, tuple) and b[0] == "sym" and str(b[1]).startswith("distinct:"))):
+                may = False     # a symbol declared different from every other value
             return may, fail
         if op == "!=":
             m, f = self.cmp_atoms("==", a, b)
@@ -396,7 +402,7 @@ class Interp:
     def widen_step(self, op, old, new):
         """induction steps (x++, x += e) are widened to a half line at once so loops are not unrolled
         through the tracked constants"""
-        if any(isinstance(a, tuple) for a in new) or "PTR" in new or not new:
+        if not self.widen or any(isinstance(a, tuple) for a in new) or "PTR" in new or not new:
             return new
         los = [atom_interval(a)[0] for a in new]
         his = [atom_interval(a)[1] for a in new]
@@ -435,6 +441,12 @@ class Interp:
         if not cells:
             return st
         s = st.copy()
+        if s.mon.get("rel"):
+            keep = frozenset(f for f in s.mon["rel"] if f[1] not in cells and f[2] not in cells)
+            if keep:
+                s.mon["rel"] = keep
+            else:
+                del s.mon["rel"]
         strong = len(cells) == 1 and not weak and not is_weak_cell(cells[0])
         for c in cells:
             if strong:
@@ -455,9 +467,9 @@ class Interp:
         for c in cells:
             b = cell_base(c)
             if b[0] == "g" and b[1] != "errno":
-                self.events.append(("store-global", fn, node, (c, val), s, tuple(f.name for f in self.stack)))
+                self.events.append(("store-global", fn, node, (c, val), s, tuple(f.name for f in self.stack), tuple(self.callsites)))
             elif b[0] == "d":
-                self.events.append(("store-input", fn, node, (c, val), s, tuple(f.name for f in self.stack)))
+                self.events.append(("store-input", fn, node, (c, val), s, tuple(f.name for f in self.stack), tuple(self.callsites)))
         for h in self.hooks_store:
             for c in cells:
                 r = h(self, fn, node, c, val, s)
@@ -546,7 +558,7 @@ class Interp:
     def ptr_targets(self, val, node=None):
         out = []
         if ("NULL" in val or 0 in val) and node is not None and self.stack:
-            self.events.append(("null-deref", self.stack[-1], node, val, None, tuple(f.name for f in self.stack)))
+            self.events.append(("null-deref", self.stack[-1], node, val, None, tuple(f.name for f in self.stack), tuple(self.callsites)))
         for a in val:
             if isinstance(a, tuple) and a[0] == "addr":
                 out.append(a[1])
@@ -716,7 +728,16 @@ class Interp:
                 return frozenset({0}) if op == "&&" else frozenset({1})
             va = self.rval(a, st, fn)
             vb = self.rval(b, st, fn)
+            if op == "-" and st.mon.get("rel"):
+                ca, cb = self.single_cell(a, st, fn), self.single_cell(b, st, fn)
+                if ca is not None and cb is not None:
+                    if ("<", cb, ca) in st.mon["rel"]:
+                        return self.pos()
+                    if ("<=", cb, ca) in st.mon["rel"]:
+                        return self.nonneg()
             if op in ("==", "!=", "<", "<=", ">", ">="):
+                for h in self.hooks_cmp:
+                    h(self, fn, n, op, va, vb, st)
                 may = fail = False
                 for x in va:
                     for y in vb:
@@ -991,7 +1012,7 @@ class Interp:
                 if isinstance(x, tuple) and x[0] == "addr":
                     s.mem.pop(x[1], None)
                     self.kill_prefix(s, x[1])
-        self.events.append(("unknown-call", fn, n, name, None, tuple(f.name for f in self.stack)))
+        self.events.append(("unknown-call", fn, n, name, None, tuple(f.name for f in self.stack), tuple(self.callsites)))
         return [(s, self.top_for_type(n.get("ct") or n.get("t")))]
 
     def locals_of(self, F):
@@ -1007,6 +1028,13 @@ class Interp:
         return self._locals_cache[F.name]
 
     def inline(self, F, n, argvals, st, caller):
+        self.callsites.append((caller.name, expr_str(n)[:80]))
+        try:
+            return self._inline(F, n, argvals, st, caller)
+        finally:
+            self.callsites.pop()
+
+    def _inline(self, F, n, argvals, st, caller):
         s = st.copy()
         # bind parameters
         for p, a in zip(F.params, argvals):
@@ -1025,6 +1053,13 @@ class Interp:
                 del es.mem[k]
             for k in [k for k in es.tmp if k[0] == F.name]:
                 del es.tmp[k]
+            if es.mon.get("rel"):
+                keep = frozenset(f for f in es.mon["rel"]
+                                 if not any(cell_base(c)[0] == "v" and cell_base(c)[1] in loc for c in f[1:]))
+                if keep:
+                    es.mon["rel"] = keep
+                else:
+                    del es.mon["rel"]
             if rv and next(iter(rv)) == ("agg", F.name) and len(rv) == 1:
                 outs.append((es, ("aggret", ("retagg", F.name))))
             else:
@@ -1355,6 +1390,9 @@ class Interp:
             va = self.rval(a, st, fn)
             vb = self.rval(b, st, fn)
             op = c["op"]
+            for h in self.hooks_cmp:
+                h(self, fn, c, op, va, vb, st)
+            ca, cb = self.single_cell(a, st, fn), self.single_cell(b, st, fn)
             res = []
             for o in (op, self.NEGOP[op]):
                 ra = self.refine_cmp(o, va, vb)
@@ -1369,6 +1407,10 @@ class Interp:
                     s = self.refine_node(a, ra, s, fn)
                 if exact_set(va):
                     s = self.refine_node(b, rb, s, fn)
+                if ca is not None and cb is not None and o in ("<", "<=", ">", ">=") and not exact_set(va) and not exact_set(vb):
+                    fact = {"<": ("<", ca, cb), "<=": ("<=", ca, cb), ">": ("<", cb, ca), ">=": ("<=", cb, ca)}[o]
+                    s = s.copy()
+                    s.mon["rel"] = frozenset(s.mon.get("rel", frozenset()) | {fact})
                 res.append([s])
             return res[0], res[1]
         # truthiness of a scalar
@@ -1378,6 +1420,18 @@ class Interp:
         ts = [self.refine_node(cond, self._nonzero(tv), st, fn)] if tv else []
         fs = [self.refine_node(cond, self._zero(fv), st, fn)] if fv else []
         return ts, fs
+
+    def single_cell(self, n, st, fn):
+        """the one strong cell an operand is loaded from, if it is a plain load"""
+        n = strip_casts_keep_lv(n)
+        if n["k"] == "ImplicitCastExpr" and n.get("ck") == "LValueToRValue":
+            try:
+                cells = self.lval(n["c"][0], st, fn)
+            except AnalysisBroken:
+                return None
+            if len(cells) == 1 and not is_weak_cell(cells[0]):
+                return cells[0]
+        return None
 
     def _nonzero(self, v):
         return frozenset(a for a in v if a != 0 and a != "NULL")
